@@ -253,6 +253,12 @@ func genDoc(r *rand.Rand, o genOpts) *docSpec {
 		if withYear { // digits inside a running line (identical on every page)
 			tA = fmt.Sprintf("%s %d", tA, year)
 			d.feat("running.has-digits")
+			if year%2 == 0 {
+				// two numbers that follow one another, the same on every page: a release,
+				// a span of years, a date
+				tA = []string{fmt.Sprintf("%s Release %d.%d", tA, year%7+1, year%7+2), fmt.Sprintf("%s-%d", tA, year+1), fmt.Sprintf("%s 0%d/0%d", tA, year%8+1, year%8+2)}[year/2%3]
+				d.feat("running.has-consecutive-numbers")
+			}
 		}
 		if !withYear && (kind == "run" || kind == "run2") && r.Intn(6) == 0 {
 			// a very short running line: a section sign (one WinAnsi byte, two bytes in
